@@ -349,3 +349,27 @@ pub fn wide_grammars() -> Vec<String> {
     }
     v
 }
+
+/// Built-in rules slice: every ASCII built-in and NEWLINE/ANY/SOI/EOI, alone, under ?, *, !, and
+/// in pairs, on inputs over a class-boundary alphabet.
+pub fn builtin_bodies() -> Vec<String> {
+    let leaves = ["ASCII_DIGIT", "ASCII_NONZERO_DIGIT", "ASCII_BIN_DIGIT", "ASCII_OCT_DIGIT", "ASCII_HEX_DIGIT", "ASCII_ALPHA_LOWER", "ASCII_ALPHA_UPPER", "ASCII_ALPHA", "ASCII_ALPHANUMERIC", "ASCII", "NEWLINE", "ANY", "SOI", "EOI"];
+    let unary = [("(", ")?"), ("(", ")*"), ("!(", ")"), ("(", ")+")];
+    bodies_by_size(&leaves, &unary, 3).into_iter().flatten().collect()
+}
+pub const BUILTIN_ALPHA: &[char] = &['F', 'g', '0', '8', '\n', '\r', 'é', '\u{7f}'];
+
+/// WHITESPACE / COMMENT bodies of every small shape and modifier (whole grammars).
+pub fn special_body_grammars() -> Vec<String> {
+    let by = bodies_by_size(PLAIN_LEAVES, &UNARY[..9], 2);
+    let mut v = vec![];
+    for special in ["WHITESPACE", "COMMENT"] {
+        for m in ["_", "", "@", "$"] {
+            for b in by.iter().flatten() {
+                v.push(format!("{special} = {m}{{ {b} }} s = {{ \"b\" }} r = {{ \"a\" ~ \"b\" ~ (\"a\" | s)* }}"));
+                v.push(format!("{special} = {m}{{ {b} }} s = ${{ \"b\" ~ \"a\" }} r = !{{ (s ~ \"a\"?)+ }} top = @{{ r ~ \"b\" }}"));
+            }
+        }
+    }
+    v
+}
